@@ -68,6 +68,7 @@ def check(run):
         run.guard("C03.3.check_options-table", cfg, lambda: rule_check_options(run, F, cfg))
         run.guard("C03.4.unsupported-schemes", cfg, lambda: rule_unsupported(run, F, cfg))
         run.guard("C03.5.domain-hashing", cfg, lambda: rule_domains(run, F, cfg))
+        run.guard("C03.6.scheme-patterns", cfg, lambda: rule_scheme_patterns(run, F, cfg))
 
 
 def option_arms(F):
@@ -203,11 +204,16 @@ def rule_bits(run, F, cfg):
         if k.startswith(M) and "val" in v and "int" in v["val"]:
             vals[k[len(M):]] = v["val"]["int"]
     unions = {"FROM_NETWORK_TYPES", "FROM_ALL_TYPES", "DEFAULT_OPTIONS", "NONE"}
-    single = {k: v for k, v in vals.items() if k not in unions}
-    bad = [k for k, v in single.items() if v == 0 or (v & (v - 1)) != 0]
+    single = {k: v for k, v in vals.items() if k not in unions and v != 0 and (v & (v - 1)) == 0}
+    allbits = 0
+    for v in single.values():
+        allbits |= v
+    composite = {k: v for k, v in vals.items() if k not in single}
+    bad = [k for k, v in composite.items() if v & ~allbits]
     dup = len(set(single.values())) != len(single)
     run.ob("C03.2.bit-layout", "distinct-powers-of-two", not bad and not dup and len(single) >= 28,
-           f"{len(single)} single-flag constants are distinct powers of two (not a power of two: {bad}; duplicates: {dup})",
+           f"{len(single)} single-flag constants are distinct powers of two; every other constant "
+           f"({sorted(composite)}) is a union of single flags (stray bits in: {bad}; duplicate bit values: {dup})",
            config=cfg)
     net = 0
     for k in NETWORK_TYPES:
@@ -362,3 +368,30 @@ def rule_domains(run, F, cfg):
     bl = F.fn("utils::bin_lookup")
     run.ob("C03.5.domain-hashing", "bin_lookup-is-binary-search", bool(bl.calls(r"binary_search")),
            "utils::bin_lookup is a binary search", config=cfg)
+
+
+def rule_scheme_patterns(run, F, cfg):
+    """`|http://`, `|https://`, `|ws://`, `|http*://` as the whole pattern select the scheme bits"""
+    p = F.fn("filters::network::NetworkFilter::parse")
+    got = {}
+    for b, t in p.calls(r"::set$"):
+        e = p.expr_operand(t["args"][1])
+        v = p.expr_operand(t["args"][2])
+        m = re.search(r"NetworkFilterMask::(\w+)=", e)
+        if not m:
+            continue
+        c = dominating_conditions(p, b)
+        for k, val in c.items():
+            mm = re.search(r'starts_with\(.*, "([^"]*)"\)$', k)
+            if mm and val == 1 and mm.group(1).endswith("://"):
+                got.setdefault(mm.group(1), {})[m.group(1)] = v
+    want = {
+        "ws://": {"FROM_WEBSOCKET": "true", "FROM_HTTP": "false", "FROM_HTTPS": "false", "IS_LEFT_ANCHOR": "false"},
+        "http://": {"FROM_HTTP": "true", "FROM_HTTPS": "false", "IS_LEFT_ANCHOR": "false"},
+        "https://": {"FROM_HTTPS": "true", "FROM_HTTP": "false", "IS_LEFT_ANCHOR": "false"},
+        "http*://": {"FROM_HTTPS": "true", "FROM_HTTP": "true", "IS_LEFT_ANCHOR": "false"},
+    }
+    for lit, w in want.items():
+        run.ob("C03.6.scheme-patterns", f"pattern:|{lit}", got.get(lit) == w,
+               f"a rule whose whole pattern is `|{lit}` sets the scheme bits {got.get(lit)} (expected {w}): the rule "
+               f"then applies exactly to requests of that scheme", site=p.loc(0), config=cfg)
